@@ -1,7 +1,7 @@
 (* C08 — treespec inspection, constructors, transform and compose are consistent.
    Statements only; proofs in proofs/SpecProofs.v and proofs/InspectProofs.v. *)
-From OptreeModel Require Import Base Tree Flatten Unflatten Spec ArraySpec.
-From OptreeProofs Require Import SpecProofs InspectProofs ArrayProofs.
+From OptreeModel Require Import Base Tree Flatten Unflatten Spec ArraySpec Construct.
+From OptreeProofs Require Import SpecProofs InspectProofs ArrayProofs ConstructProofs.
 
 (* Every treespec flatten returns is the post-order encoding of a well-formed structured treespec
    (arity, num_leaves and num_nodes consistent at every node) whose leaf count is the number of
@@ -92,6 +92,44 @@ Proof.
   exists s. split; [exact Hs|]. rewrite <- Hsp. unfold spec_of. cbn [trav]. apply arr_children_spec. exact Hw.
 Qed.
 Print Assumptions C08_array_children_of_flatten.
+
+(* CONSTRUCTORS. treespec_from_collection / treespec_tuple / _list / _dict / _ordereddict /
+   _defaultdict / _deque / _namedtuple / _structseq (one engine function, MakeFromCollection) applied to
+   the treespecs of the children of a collection return the treespec that tree_structure returns for the
+   collection itself — identical node array, identical none_is_leaf, compatible namespace — and fail
+   exactly when flattening the collection fails, with the same exception. For every configuration
+   without a predicate on the collection, every header (all node kinds, custom flatten behaviours
+   included) and all children that flatten within the depth limit. *)
+Theorem C08_constructor_is_flatten :
+  forall c h cs,
+    apply_pred c (Node h cs) = false -> wf_obj (Node h cs) = true ->
+    (forall x, In x cs -> exists r, tflat c (c_limit c) x = Ok r) ->
+    match flatten c (Node h cs) with
+    | Ok (ls, sp) =>
+      exists s, make_from_collection c h (map (flatten_spec c) cs) = Ok s /\
+                encode (stree_of s) = trav sp /\ ss_nil s = snil sp /\ ns_compatible (ss_ns s) (sns sp) = true
+    | Err e => make_from_collection c h (map (flatten_spec c) cs) = Err e
+    end.
+Proof. exact mfc_flatten. Qed.
+Print Assumptions C08_constructor_is_flatten.
+
+(* flatten_spec is what tree_structure returns *)
+Theorem C08_flatten_spec_correct :
+  forall c x ls sp, flatten c x = Ok (ls, sp) ->
+  spec_of (flatten_spec c x) = sp /\ sspec_of sp = Some (flatten_spec c x).
+Proof. exact flatten_spec_correct. Qed.
+Print Assumptions C08_flatten_spec_correct.
+
+(* the engine's flatten is the post-order encoding of a flatten that builds the structured treespec
+   directly (both directions: same success, same leaves, same error) *)
+Theorem C08_flatten_is_encoded_tree_flatten :
+  forall c fuel o,
+    match tflat c fuel o with
+    | Ok (ls, t, b) => flat c fuel o = Ok (ls, encode t, b) /\ wf_stree t = true /\ st_leaves t = length ls
+    | Err e => flat c fuel o = Err e
+    end.
+Proof. exact flat_tflat. Qed.
+Print Assumptions C08_flatten_is_encoded_tree_flatten.
 
 Example C08_example :
   let c := {| c_nil := false; c_ns := 0; c_pred := None; c_reg := []; c_ins := []; c_limit := 1000 |} in
